@@ -250,10 +250,40 @@ def ob_queries(ctx):
     ctx.witness_found('queries explored')
 
 
+def ob_requests_many(ctx, n=40):
+    """UnbondRequests with many claims of one address (n wait-list entries with the concrete batch ids 1..n, symbolic amounts):
+    every one of them is reported — no page size, cap or cut-off applies to this query"""
+    W = HubWorld(ctx, n_validators=1, n_delegations=1)
+    user = W.I.S('user_a')
+    ws = [W.add_wait('m%d' % i, user, i + 1) for i in range(n)]
+    W.install()
+    QM = 'basset::hub::QueryMsg'
+    qmsg = W.mk.variant(QM, 'UnbondRequests', crate=HUB, address=user)
+    raw_scenario(W, 'query', qmsg, user, querier=hub_querier_template(W))
+    k = 0
+    for st, res in W.query(W.st, qmsg):
+        ctx.ob.paths += 1
+        if not is_ok(res):
+            ctx.infeasible(st, 'UnbondRequests succeeds', 'query:requests_fails', W.mv)
+            continue
+        k += 1
+        r = res.fields[0]
+        r = r.v if isinstance(r, JsonV) else r
+        got = [(x.fields[0], x.fields[1].fields[0], x.fields[2].fields[0]) for x in r.fields[1].items]
+        conds = []
+        for i, w in enumerate(ws):
+            conds.append(z3.Or(*[z3.And(g[0] == i + 1, g[1] == w['bsei'], g[2] == w['stsei']) for g in got]) if got else False)
+        ctx.require(st, z3.And(*conds) if len(got) == n else False,
+                    'UnbondRequests reports every stored claim of the address with both amounts', 'query:requests', W.mv)
+    ctx.need_witness('UnbondRequests Ok (%d entries)' % n, k > 0)
+    ctx.witness_found('UnbondRequests explored with %d entries' % n)
+    ctx.ob.bounds = {'wait-list entries of the address': '%d (batch ids 1..%d concrete, amounts symbolic)' % (n, n)}
+
+
 VARIANTS = ['UpdateConfig', 'UpdateParams', 'SetOwner', 'AcceptOwnership', 'Bond', 'BondForStSei', 'BondRewards', 'UpdateGlobalIndex',
             'WithdrawUnbonded', 'CheckSlashing', 'Receive', 'ClaimAirdrop', 'SwapHook', 'RedelegateProxy']
 OBLIGATIONS = [('unbond_bsei', ob_unbond('b')), ('unbond_stsei', ob_unbond('s')), ('withdraw_released_only', ob_withdraw_released_only),
-               ('queries', ob_queries)] + [('frame_%s' % v, ob_frame(v)) for v in VARIANTS]
+               ('queries', ob_queries), ('requests_many_n40', ob_requests_many)] + [('frame_%s' % v, ob_frame(v)) for v in VARIANTS]
 
 
 def ORACLE(v, scn, out):
